@@ -8,25 +8,29 @@
 EXTENDS LinkTable, Json, IOUtils
 Trace == ndJsonDeserialize(IOEnv.TRACE)
 Prop == IOEnv.PROP
-VARIABLES l, olive, oestd, bad
-tvars == <<vars, l, olive, oestd, bad>>
-TInit == Init /\ l = 1 /\ olive = {} /\ oestd = {} /\ bad = {}
+VARIABLES l, olive, oestd, odead, bad
+tvars == <<vars, l, olive, oestd, odead, bad>>
+TInit == Init /\ l = 1 /\ olive = {} /\ oestd = {} /\ odead = {} /\ bad = {}
 Ev == Trace[l]
 Is(e) == l <= Len(Trace) /\ Ev.e = e
 Strict == IOEnv.STRICT = "1"
 SeqSet(s) == {s[i] : i \in 1..Len(s)}
 
-TrReset == /\ Is("reset") /\ l' = l + 1 /\ olive' = {} /\ oestd' = {} /\ UNCHANGED bad
+TrReset == /\ Is("reset") /\ l' = l + 1 /\ olive' = {} /\ oestd' = {} /\ odead' = {} /\ UNCHANGED bad
            /\ reg' = [c \in Ctrl |-> [u \in Uuids |-> "none"]] /\ byPeer' = [c \in Ctrl |-> [p \in Peers |-> {}]]
            /\ closed' = {} /\ estd' = {} /\ lost' = {} /\ live' = {}
 TrEst == /\ Is("est") /\ l' = l + 1 /\ UNCHANGED bad
          /\ LET x == Ev.l IN
             /\ oestd' = oestd \cup {x}
-            /\ olive' = IF Remote(x) = LocalOf[CtrlOf(x)] THEN olive
-                        ELSE (olive \ {y \in olive : CtrlOf(y) = CtrlOf(x) /\ Uuid(y) = Uuid(x)}) \cup {x}
+            \* a link object that was replaced or lost is dead (closed): reported established again it stays dead, but evicts its uuid
+            /\ LET same == {y \in olive : CtrlOf(y) = CtrlOf(x) /\ Uuid(y) = Uuid(x)} IN
+               IF Remote(x) = LocalOf[CtrlOf(x)] THEN olive' = olive /\ odead' = odead \cup {x}
+               ELSE IF x \in olive THEN UNCHANGED <<olive, odead>>
+               ELSE IF x \in odead THEN olive' = olive \ same /\ odead' = odead \cup same
+               ELSE olive' = (olive \ same) \cup {x} /\ odead' = odead \cup same
             /\ (IF Strict THEN Est(x) ELSE UNCHANGED vars)
 TrLost == /\ Is("lost") /\ l' = l + 1 /\ UNCHANGED <<bad, oestd>>
-          /\ olive' = olive \ {Ev.l}
+          /\ olive' = olive \ {Ev.l} /\ odead' = odead \cup {Ev.l}
           /\ (IF Strict THEN Lost(Ev.l) ELSE UNCHANGED vars)
 
 Sources == {""} \cup {LocalOf[c] : c \in Ctrl}
@@ -36,7 +40,7 @@ ObsLook(S, D) == SeqSet(Ev.looks[LookKey(S, D)])
 Proj(v) == [ctrl |-> v.ctrl, uuid |-> v.uuid, remote |-> v.remote]
 
 TrQ ==
-  /\ Is("q") /\ l' = l + 1 /\ UNCHANGED <<vars, olive, oestd>>
+  /\ Is("q") /\ l' = l + 1 /\ UNCHANGED <<vars, olive, oestd, odead>>
   /\ (Strict => \A c \in Ctrl, p \in Peers : SeqSet(Ev.rep[c][p]) = Reported(c, p))
   /\ bad' = bad
        \cup {<<"C06", "GetPeerLinks differs from the links established and not lost", c, p>> :
